@@ -83,12 +83,18 @@ class Runner:
         for t in threads:
             t.join()
         q = queue.Queue()
-        order = sorted(hs, key=lambda h: (-h.timeout, h.fn))
+        # longest first: measured wall times of an earlier run (tools/costs.json, a scheduling hint only) where known
+        try:
+            costs = json.load(open(os.path.join(os.path.dirname(os.path.dirname(os.path.dirname(os.path.abspath(__file__)))), "tools", "costs.json")))
+        except (OSError, ValueError):
+            costs = {}
+        cost = lambda h: int(costs.get(h.fn, h.timeout / 4.0) // 60)
+        order = sorted(hs, key=lambda h: (-cost(h), h.fn))
         rnd = random.Random(self.seed)
         # seed only permutes scheduling among harnesses of equal cost class
         groups = {}
         for h in order:
-            groups.setdefault(h.timeout, []).append(h)
+            groups.setdefault(cost(h), []).append(h)
         order = []
         for k in sorted(groups, reverse=True):
             g = groups[k]
@@ -339,6 +345,7 @@ def main(argv):
         log("no obligations registered for %s" % a.prop)
         return 2
     R = Runner(a.prop, tier, seed, a.jobs, a.keep, a.only)
+    R.scope = a.prop
     exit_code = 2
     try:
         log("property %s tier=%s seed=%d repo=%s harnesses=%d smt=%d" % (
@@ -558,6 +565,9 @@ def conclude(R, prop, tier, seed, hs, smt_obls, smt_out, wall, partial):
             "known_findings_reported": sorted(seen),
             "repo": overlay.repo_identity(),
             "partial_run": partial,
+            "run_scope": ("one pass over every claimed property (./vcheck ALL): wall_s is the wall time of the whole pass, the "
+                          "cost of this property's own obligations is in per_obligation[].wall_s" if R.scope == "ALL"
+                          else "this property's check alone"),
             "exhaustive": False,
         },
         "assumptions": sorted(assumptions),
